@@ -33,7 +33,7 @@ func runC10(c *core.Ctx) {
 	lc := core.NewLockCache()
 	c.Doc("C10.single-write", "one stream write per message with header+payload in one private buffer; size mismatch refused; Send forwards", 5)
 	ruleSingleWrite(c, a)
-	c.Doc("C10.stream-owner", "the stream is only used through Message.Write/Read, Close, String; raw Read/Write only in ReadN/WriteN and Stream forwarders", 6)
+	c.Doc("C10.stream-owner", "the stream is only used through Message.Write/Read, Close, String; raw Read/Write only in ReadN/WriteN and Stream forwarders", 4)
 	ruleStreamOwner(c, a)
 	c.Doc("C10.order", "process dispatches synchronously between two reads", 2)
 	ruleProcessOrder(c, a)
@@ -256,6 +256,8 @@ func ruleStreamOwner(c *core.Ctx, a *epAnchors) {
 	msgWrite := c.Func("bus/net", "Message", "Write")
 	msgRead := c.Func("bus/net", "Message", "Read")
 	n := 0
+	sendUnit, processUnit := exclusiveUnit(c, a.send), exclusiveUnit(c, a.process)
+	nRead, nWrite := 0, 0
 	for _, fn := range srcFuncsOfPkg(c, "bus/net") {
 		for _, acc := range fieldAccesses(fn, a.stream) {
 			if acc.write || acc.fresh {
@@ -284,10 +286,12 @@ func ruleStreamOwner(c *core.Ctx, a *epAnchors) {
 				switch {
 				case cc.IsInvoke() && (cc.Method.Name() == "Close" || cc.Method.Name() == "String" || cc.Method.Name() == "Context"):
 					c.Pass(rule, key, u.Pos(), cc.Method.Name()+"()")
-				case core.IsCallTo(call, msgWrite) && fn == a.send:
-					c.Pass(rule, key, u.Pos(), "Message.Write from Send")
-				case core.IsCallTo(call, msgRead) && fn == a.process:
-					c.Pass(rule, key, u.Pos(), "Message.Read from process")
+				case core.IsCallTo(call, msgWrite) && sendUnit[fn]:
+					nWrite++
+					c.Check(nWrite == 1, rule, key, u.Pos(), "Message.Write from Send", "Send writes to the stream at more than one place")
+				case core.IsCallTo(call, msgRead) && processUnit[fn]:
+					nRead++
+					c.Check(nRead == 1, rule, key, u.Pos(), "Message.Read from process", "process reads the stream at more than one place")
 				default:
 					c.Fail(rule, key, u.Pos(), "the endpoint's stream is used by "+core.CalleeName(call)+" in "+core.FuncKey(fn)+": only Send→Message.Write and process→Message.Read may touch it (a second writer path can interleave partial messages, a second reader steals bytes)")
 				}
@@ -336,32 +340,33 @@ func ruleStreamOwner(c *core.Ctx, a *epAnchors) {
 func ruleProcessOrder(c *core.Ctx, a *epAnchors) {
 	const rule = "C10.order"
 	fn := a.process
-	msgRead := c.Func("bus/net", "Message", "Read")
+	rs := a.readSite(c)
 	var read, disp ssa.CallInstruction
 	nd := 0
 	for _, call := range core.Calls(fn) {
-		if core.IsCallTo(call, msgRead) {
-			read = call
-		}
 		if core.IsCallTo(call, a.dispatch) {
 			disp = call
 			nd++
 		}
 	}
-	if read == nil || disp == nil {
-		c.Fail(rule, "bus/net.endPoint.process", fn.Pos(), "process does not read with Message.Read and hand the message to dispatch")
+	if rs.problem != "" || disp == nil {
+		why := rs.problem
+		if why == "" {
+			why = "process does not hand the message to dispatch"
+		}
+		c.Fail(rule, "bus/net.endPoint.process", fn.Pos(), why)
 		return
 	}
+	read = rs.call
 	_, plain := disp.(*ssa.Call)
 	c.Check(plain && nd == 1, rule, "bus/net.endPoint.process/dispatch-sync", disp.Pos(),
 		"dispatch is a plain synchronous call", "dispatch is started with `go`/defer (or more than once): messages can overtake each other")
 	// between two reads there is a dispatch: from after read, reaching read again must pass dispatch (on the no-error edge)
-	isErr := func(v ssa.Value) bool { cr, _ := core.CallResult(v); return cr != nil && ssa.CallInstruction(cr) == read }
-	cut := core.CutEstablishing(core.Ne(isErr, core.IsNilConst))
+	cut := core.CutEstablishing(core.Ne(rs.isErr, core.IsNilConst))
 	r := core.ReachFrom(core.After(read.(ssa.Instruction)), func(x ssa.Instruction) bool { return x == disp.(ssa.Instruction) }, cut)
 	c.Check(!r.Has(read.(ssa.Instruction)), rule, "bus/net.endPoint.process/read-dispatch-read", read.Pos(),
 		"every successfully read message is dispatched before the next read", "a message can be read and the loop continue without dispatching it (message lost)")
 	// the message dispatched is the one just read
-	same := core.Canon(disp.Common().Args[1]) == core.Canon(read.Common().Args[0])
+	same := rs.isMsg(disp.Common().Args[1])
 	c.Check(same, rule, "bus/net.endPoint.process/same-message", disp.Pos(), "dispatch receives the message just read", "dispatch does not receive the message object that was just read")
 }
